@@ -98,11 +98,33 @@ def g_call(fn, *args, **kwargs):
 	if fn is int and args and isinstance(args[0], float):
 		if args[0] != args[0] or abs(args[0]) > 2 ** 30:
 			raise OutOfDomain('float-to-int-range')
+	if fn is list and args and SORTED_DICTS[0]:
+		return list(g_iter(args[0]))
 	if fn is int and args and isinstance(args[0], str):
 		s = args[0]
 		if not (s.isdigit() or (s[:1] == '-' and s[1:].isdigit())) or len(s) > 9:
 			raise OutOfDomain('str-to-int-format')
 	return _chk(fn(*args, **kwargs)) if not isinstance(fn, type) or fn in (int, float) else fn(*args, **kwargs)
+
+
+SORTED_DICTS = [False]
+_VIEWS = (type({}.keys()), type({}.values()), type({}.items()))
+
+
+def g_iter(x):
+	"""Iteration source of a for loop / comprehension. In the second reference run dicts iterate in key order (what std::map does):
+	a program whose results differ between the two runs relies on dict order and is outside the subset."""
+	if SORTED_DICTS[0]:
+		if isinstance(x, dict):
+			return sorted(x)
+		if isinstance(x, _VIEWS[0]):
+			return sorted(x)
+		if isinstance(x, _VIEWS[2]):
+			return sorted(x, key=lambda kv: kv[0])
+		if isinstance(x, _VIEWS[1]):
+			m = x.mapping
+			return [m[k] for k in sorted(m)]
+	return x
 
 
 class Instrument(ast.NodeTransformer):
@@ -140,11 +162,21 @@ class Instrument(ast.NodeTransformer):
 
 	def visit_Call(self, node):
 		self.generic_visit(node)
-		if isinstance(node.func, ast.Name) and node.func.id in ('vfg_bin', 'vfg_un', 'vfg_index', 'vfg_call', 'super', 'range', 'enumerate', 'len', 'isinstance'):
+		if isinstance(node.func, ast.Name) and node.func.id in ('vfg_bin', 'vfg_un', 'vfg_index', 'vfg_call', 'vfg_iter', 'super', 'range', 'enumerate', 'len', 'isinstance'):
 			return node
 		if any(isinstance(a, ast.Starred) for a in node.args):
 			return node
 		return ast.copy_location(ast.Call(ast.Name('vfg_call', ast.Load()), [node.func, *node.args], node.keywords), node)
+
+	def visit_For(self, node):
+		self.generic_visit(node)
+		node.iter = ast.copy_location(ast.Call(ast.Name('vfg_iter', ast.Load()), [node.iter], []), node.iter)
+		return node
+
+	def visit_comprehension(self, node):
+		self.generic_visit(node)
+		node.iter = ast.copy_location(ast.Call(ast.Name('vfg_iter', ast.Load()), [node.iter], []), node.iter)
+		return node
 
 	def visit_AnnAssign(self, node):
 		# annotations stay untouched
@@ -189,6 +221,19 @@ def show(v) -> str:
 
 
 def run(source: str, calls: list[tuple[str, str]], fields: dict[str, list[str]], guarded: bool = True, step_limit: int = 200000) -> dict:
+	out = run_once(source, calls, fields, guarded, step_limit)
+	if guarded and out['out_of_domain'] is None and ('dict' in source or '{' in source):
+		SORTED_DICTS[0] = True
+		try:
+			again = run_once(source, calls, fields, guarded, step_limit)
+		finally:
+			SORTED_DICTS[0] = False
+		if again != out:
+			return {'lines': out['lines'], 'out_of_domain': 'relies-on-dict-order'}
+	return out
+
+
+def run_once(source: str, calls: list[tuple[str, str]], fields: dict[str, list[str]], guarded: bool = True, step_limit: int = 200000) -> dict:
 	"""Execute `source`, then evaluate each (label, python call expression).
 
 	Returns {'lines': {label: text}, 'out_of_domain': reason | None}.  A call that raises a generated
@@ -199,7 +244,7 @@ def run(source: str, calls: list[tuple[str, str]], fields: dict[str, list[str]],
 	if guarded:
 		tree = Instrument().visit(tree)
 		ast.fix_missing_locations(tree)
-	ns: dict = {'__name__': '__vf_main__', 'vfg_bin': g_bin, 'vfg_un': g_un, 'vfg_index': g_index, 'vfg_call': g_call}
+	ns: dict = {'__name__': '__vf_main__', 'vfg_bin': g_bin, 'vfg_un': g_un, 'vfg_index': g_index, 'vfg_call': g_call, 'vfg_iter': g_iter}
 	steps = [0]
 
 	def tracer(frame, event, arg):
